@@ -100,6 +100,10 @@ def w_random(seeds):
             m = valtrace.mutate(root, rnd, t, PLANT)
             if m:
                 muts.append(m)
+        if seed % 8 == 5:
+            root.add_namespace(None, "https://eml.ecoinformatics.org/eml-2.2.0")      # a default namespace next to a prefix, as an XML import leaves them
+            root.add_namespace("xsi", "http://www.w3.org/2001/XMLSchema-instance")
+            desc["tree"] = "default + prefixed namespace on every node"
         if seed % 8 == 3:
             for x in list(walk(root)):
                 x.parent = None                        # the tree is its child lists; the stored back pointers are cleared through the public setter
